@@ -759,7 +759,7 @@ func (self *TextCommandConverter) ConvertTextDecrCommand(textProtocol ITextProto
 }
 
 func (self *TextCommandConverter) ConvertTextExpireCommand(textProtocol ITextProtocol, args []string) (*LockCommand, WriteTextCommandResultFunc, error) {
-	if len(args) < 3 {
+	if len(args) < 3 && !(len(args) == 2 && strings.ToUpper(args[0]) == "PERSIST") {
 		return nil, nil, errors.New("Command Parse Args Count Error")
 	}
 
@@ -768,7 +768,10 @@ func (self *TextCommandConverter) ConvertTextExpireCommand(textProtocol ITextPro
 	self.ConvertArgId2LockId(args[1], &lockCommand.LockKey)
 	lockCommand.LockId = lockCommand.LockKey
 	lockCommand.Flag = LOCK_FLAG_UPDATE_WHEN_LOCKED
-	expried, err := strconv.ParseInt(args[2], 10, 64)
+	expried, err := int64(0), error(nil)
+	if len(args) > 2 {
+		expried, err = strconv.ParseInt(args[2], 10, 64)
+	}
 	if err != nil {
 		_ = textProtocol.FreeLockCommand(lockCommand)
 		return nil, nil, errors.New("Command Parse EX Value Error")
